@@ -1,1 +1,97 @@
-/-! Property theorems for C09 (statements + proofs by reference to `Proof/`). Not built yet. -/
+import GraafVerif.Proof.Tarjan
+import GraafVerif.Proof.TarjanCheckComplete
+/-!
+# C09 — Tarjan partitions the vertices into the strongly connected components
+
+Only statements and their proofs-by-reference live here.  `components` is the model of
+`Tarjan::new(&g).components()` (Model/Tarjan.lean), tied to the code by the correspondence run;
+`IsSCCPartition`, `VGraph.Closed` and the checker `sccCheck` are in Spec/Tarjan.lean; the
+invariants (after Chen, Cohen, Lévy, Merz, Théry, ITP 2019) in Proof/Tarjan*.lean.
+
+A `VGraph` is a vertex-id list plus an out-neighbour function, so every statement below is about
+ANY finite id set — contiguous `0..n` or not (non-contiguous `AdjacencyMap`s, on which
+`Johnson75` relies).
+-/
+namespace GraafVerif.C09
+open GraafVerif GraafVerif.Tarjan
+
+/-- Full statement of C09: for every digraph the call returns — no panic, the recursion
+terminates within the fuel — sets that partition the vertex set such that two vertices lie in the
+same set exactly when each is reachable from the other. -/
+def Statement : Prop :=
+  ∀ g : VGraph, g.Closed → ∃ cs, components g = .ret cs ∧ IsSCCPartition g cs
+
+/-- [P2] The full statement holds. -/
+theorem tarjan_scc : Statement := fun g h => components_correct g h
+
+/-- [P0] Termination / fuel adequacy of the whole run: with ANY fuel supply that is at least the
+number of vertices not yet indexed, the run is the one of the model (which supplies that number
+plus one) — so the fuel is a termination proof, not an assumption.  Together with `tarjan_scc`
+(result is `.ret`, not `.fuel`): the recursion depth never exceeds the number of un-indexed
+vertices, because every call indexes a new vertex. -/
+theorem tarjan_fuel_adequate (g : VGraph) (h : g.Closed) (fuelOf : St → Nat)
+    (hf : ∀ s, unindexed g s ≤ fuelOf s) : runWith g fuelOf = run g := runWith_eq h fuelOf hf
+
+/-- [P0] The same for a single `connect` call in any state satisfying the invariant: no fault
+(neither fuel nor panic) and the result does not depend on the fuel ≥ the bound. -/
+theorem connect_fuel_adequate (g : VGraph) (h : g.Closed) (gray : List Nat) (u : Nat) (s : St)
+    (p : Pre g gray u s) (fuel : Nat) (hfuel : unindexed g s ≤ fuel) :
+    (connect g fuel u s).fault = none ∧ connect g fuel u s = connect g (unindexed g s) u s :=
+  Tarjan.connect_fuel_adequate g h gray u s p fuel hfuel
+
+/-- [P1] The output sets are non-empty, pairwise disjoint and cover exactly the vertex set. -/
+theorem tarjan_partition (g : VGraph) (h : g.Closed) :
+    ∃ cs, components g = .ret cs ∧ (∀ c ∈ cs, c ≠ []) ∧
+      cs.Pairwise (fun c d => ∀ x ∈ c, x ∉ d) ∧ (∀ v, v ∈ g.verts ↔ ∃ c ∈ cs, v ∈ c) := by
+  obtain ⟨cs, hcs, hp⟩ := components_correct g h
+  exact ⟨cs, hcs, hp.nonempty, hp.disjoint, hp.cover⟩
+
+/-- Each returned set is listed strictly ascending (the iteration order of the `BTreeSet`s, which
+the correspondence run compares verbatim). -/
+theorem tarjan_sets_ascending (g : VGraph) (h : g.Closed) (cs : List (List Nat))
+    (hcs : components g = .ret cs) : ∀ c ∈ cs, c.Pairwise (· < ·) := by
+  obtain ⟨inv, _⟩ := run_inv h
+  unfold components at hcs
+  rw [inv.nofault] at hcs
+  injection hcs with hcs
+  subst hcs
+  exact fun c hc => (inv.compAsc c hc).1
+
+/-- [P0] The executable checker used as the driver's oracle is sound: an accepted component list
+IS the partition into strongly connected components.  Every evaluated instance therefore carries
+a kernel-checkable certificate (`sccCheck g cs = true` by evaluation). -/
+theorem sccCheck_sound (g : VGraph) (cs : List (List Nat)) (h : sccCheck g cs = true) :
+    IsSCCPartition g cs := Tarjan.sccCheck_sound g cs h
+
+/-- The checker is also complete on closed digraphs: it accepts EVERY correct answer, so the
+driver's PROPFAIL oracle cannot raise a false alarm (it demands exactly `IsSCCPartition`). -/
+theorem sccCheck_complete (g : VGraph) (h : g.Closed) (cs : List (List Nat))
+    (hp : IsSCCPartition g cs) : sccCheck g cs = true := Tarjan.sccCheck_complete g h cs hp
+
+/-- Hence the oracle accepts the model's own answer on every closed digraph. -/
+theorem sccCheck_accepts_model (g : VGraph) (h : g.Closed) :
+    ∃ cs, components g = .ret cs ∧ sccCheck g cs = true := by
+  obtain ⟨cs, hcs, hp⟩ := components_correct g h
+  exact ⟨cs, hcs, Tarjan.sccCheck_complete g h cs hp⟩
+
+/-! ## Non-vacuity -/
+
+/-- The doc example of tarjan.rs: closed, three components, certificate checked by the kernel. -/
+example : exampleGraph.Closed := by decide
+example : components exampleGraph = .ret [[5,6],[2,3,7],[0,1,4]] := by decide
+example : IsSCCPartition exampleGraph [[5,6],[2,3,7],[0,1,4]] := sccCheck_sound _ _ (by decide)
+
+/-- A non-contiguous vertex set (ids 3, 7, 1000), a 2-cycle and an isolated vertex. -/
+def sparseGraph : VGraph := ⟨[3,7,1000], fun u => if u = 3 then [1000] else if u = 1000 then [3] else []⟩
+example : sparseGraph.Closed := by decide
+example : components sparseGraph = .ret [[3,1000],[7]] := by decide
+example : ∃ cs, components sparseGraph = .ret cs ∧ IsSCCPartition sparseGraph cs :=
+  tarjan_scc sparseGraph (by decide)
+
+/-- The precondition of `connect_fuel_adequate` is satisfiable (first top-level call), and the
+fuel bound is tight there: 3 un-indexed vertices. -/
+example : Pre sparseGraph [] 3 {} :=
+  ⟨inv_init _, by decide, by simp [St.indexed], by intro z hz; simp at hz⟩
+example : unindexed sparseGraph {} = 3 := by decide
+
+end GraafVerif.C09
